@@ -84,3 +84,29 @@ def _v9(repo, mod):
     body = "\n".join(ind + "    " + l for l in ["    " + x if i else x for i, x in enumerate(mod.segment(tr).splitlines())])
     new = f"try:\n{ind}    {norm(call)}\n{ind}finally:\n{ind}    try:\n{ind}        self._record_created(rec, dst)\n{ind}    except Exception:\n{ind}        pass"
     return replace_nodes(mod, [(call, new), (tr, "pass")])
+
+
+@variant("C29", "exists-follows-symlinks", FS, "C29.foreign", "lexists replaced by Path.exists")
+def _v10(repo, mod):
+    fn = repo.func(FS, f"{C}._is_foreign")
+    c = find_node(fn, lambda n: isinstance(n, ast.Call) and norm(n.func) == "os.path.lexists")
+    return replace_node(mod, c, "Path(path).exists()")
+
+
+@variant("C29", "forget-by-bare-prefix", FS, "C29.bookkeeping", "forgetting a path also forgets siblings whose name extends it")
+def _v11(repo, mod):
+    fn = repo.func(FS, f"{C}._forget")
+    c = find_node(fn, lambda n: isinstance(n, ast.Call) and norm(n.func) == "self._created.discard")
+    return replace_node(mod, c, "self._created.difference_update([e for e in self._created if e.startswith(self._abspath(p))])")
+
+
+@variant("C29", "twin-forget-below-directory", FS, None, "entries strictly below a forgotten directory dropped with a separator-terminated prefix: harmless")
+def _v12(repo, mod):
+    fn = repo.func(FS, f"{C}._forget")
+    c = find_node(fn, lambda n: isinstance(n, ast.Call) and norm(n.func) == "self._created.discard")
+    st = c
+    from sa.engine.index import parent
+    while not isinstance(st, ast.stmt):
+        st = parent(st)
+    ind = " " * st.col_offset
+    return replace_node(mod, st, f"{norm(st)}\n{ind}self._created.difference_update([e for e in self._created if e.startswith(self._abspath(p) + os.sep)])")
